@@ -98,12 +98,12 @@ func c17Build(api string, atoms []string, eomp bool, dropMissing bool) c17Built 
 				b.fails = append(b.fails, `Custom("`+p("missing")+`")`)
 			}
 		case "bad-type":
-			m := match.Type[string](p("e"))
+			m := match.Type[string](p("e")).ErrOnMissingPath(eomp)
 			b.jm, b.ym = append(b.jm, m), append(b.ym, m)
 			b.fails = append(b.fails, `Type("`+p("e")+`")`)
 		case "bad-type2":
 			// wrong type on a nested bool, and (same matcher) a satisfied path: only the failing path is named
-			m := match.Type[float64](p("c.d"))
+			m := match.Type[float64](p("c.d")).ErrOnMissingPath(eomp)
 			b.jm, b.ym = append(b.jm, m), append(b.ym, m)
 			b.fails = append(b.fails, `Type("`+p("c.d")+`")`)
 		case "bad-type-null":
@@ -112,7 +112,8 @@ func c17Build(api string, atoms []string, eomp bool, dropMissing bool) c17Built 
 			b.jm, b.ym = append(b.jm, m), append(b.ym, m)
 			b.fails = append(b.fails, `Type("`+p("n")+`")`)
 		case "bad-custom":
-			m := match.Custom(p("b"), func(v any) (any, error) { return nil, errors.New("custom says no") })
+			// the path exists: the callback's error is a failure whatever ErrOnMissingPath says
+			m := match.Custom(p("b"), func(v any) (any, error) { return nil, errors.New("custom says no") }).ErrOnMissingPath(eomp)
 			b.jm, b.ym = append(b.jm, m), append(b.ym, m)
 			b.fails = append(b.fails, `Custom("`+p("b")+`")`)
 		case "bad-syntax":
